@@ -3,7 +3,7 @@ from .lib.match import *
 
 SELECT = r'^bluetoe::link_layer::delta_time::ppm$|^bluetoe::link_layer::link_layer::(sleep_clock_accuracy|check_timing_paremeters|parse_timing_parameters_from_connect_request|parse_timing_parameters_from_connection_update_request|adv_received|timeout|setup_next_connection_event|handle_pending_ll_control)$'
 UNITS = lambda u: u in ('w_inst_ll', 'lib_delta_time') or u.startswith('t_link_layer_ll_connecting') or u.startswith('t_link_layer_ll_connection')
-ALSO = [('C21', ('no-pullback-while-update-applied',))]   # a pulled-back event must not use connection parameters whose instant has not come: decided by C21's rule, run here as well
+ALSO = [('C21', ('no-pullback-while-update-applied',)), ('C23', ('reschedule-once',))]   # a pulled-back event keeps the timing of the connection: decided by C21's and C23's rules, run here as well
 LL = 'bluetoe::link_layer::link_layer::'
 META = {
     'level': 'validation structure: every timing field parsed from a CONNECT_IND / LL_CONNECTION_UPDATE_IND has a lower and an upper bound in check_timing_paremeters (spec/ll_timing.json); '
